@@ -106,10 +106,18 @@ def gen_schedule(rng, sid):
                 cmds.append(['CancelWaitingReader', cmds[-1][1] if cmds[-1][0] == 'Reset' else cmds[-2][1]])
                 if rng.random() < 0.6:
                     cmds.append(rng.choice([['Reset', cmds[-1][1]], ['Tick']]))
-        elif r < 0.93:
+        elif r < 0.925:
             cmds.append(['CancelWaitingReader', rng.choice(['w', 'e', 's'])])
-        elif r < 0.96:
+        elif r < 0.93:
+            cmds.append(['SetExpr', 'e', rng.choice(['', 'ADD($s, 2)', '$s'])])
+        elif r < 0.95:
             cmds.append(['SetAttr', rng.choice(['w', 'e', 's']), val()])
+        elif r < 0.985:
+            p = rng.choice(['w', 'w', 'e', 's'])
+            cmds.append(['Disable', p])
+            if rng.random() < 0.7:
+                cmds.append(rng.choice([['CompleteWrite', p, 'ok'], ['Advance', 50], ['Tick'], ['ApiWrite', p, val()]]))
+                cmds.append(['Enable', p])
         elif not loaded:
             cmds.append(['Load', 'pl', val()])
             loaded = True
@@ -120,6 +128,7 @@ SMALL_PORTS = {'w': {'writable': True, 'rlat': None, 'wlat': None}}
 SMALL_A = [['ApiWrite', 'w', None], ['Tick'], ['CompleteRead', 'w', 'val'], ['CompleteWrite', 'w', 'ok']]
 SMALL_B = SMALL_A + [['Reset', 'w']]
 SMALL_C = SMALL_B + [['CancelWaitingReader', 'w']]
+SMALL_D = SMALL_C + [['Disable', 'w'], ['Enable', 'w']]
 
 
 def enum_small(alphabet, maxlen, cap, first_id):
@@ -327,6 +336,10 @@ def event_lit(e):
         return 'DirectEnd %s' % WRES[e[1]]
     if n == 'Snap':
         return 'Snap %s %s %s' % (blit(e[1]), blit(e[2]), nlit(e[3]))
+    if n in ('Disable', 'Enable'):
+        return n
+    if n == 'Discard':
+        return 'Discard %s' % nlit(e[1])
     if n == 'ReadCancel':
         return 'ReadCancel %s' % SRC[e[1]]
     if n == 'Told':
@@ -433,7 +446,7 @@ def evaluate(ctx, res, schedules, runs, stats, tag):
             spans.append(lit_idx[a:a + per])
         t0 = time.time()
         outs = coq.eval_shards(ctx.workdir, 'c14cases_%s' % tag, HEADER, shards,
-                               ['bad_model cases', 'bad_old cases', 'reject_idx cases', 'spec_codes cases'], jobs=4)
+                               ['bad_model cases', 'bad_old cases', 'reject_idx cases', 'spec_codes cases'], jobs=2)
         stats.t_coq += time.time() - t0
         for path in glob.glob(os.path.join(ctx.workdir, 'c14cases_%s_*' % tag)) + glob.glob(
                 os.path.join(ctx.workdir, '.c14cases_%s_*' % tag)):
@@ -593,7 +606,7 @@ def check(ctx, res):
     res['rule'] = (
         'schedule = queue capacity (4 in half of the runs, else 1024) + driver latencies per port (manual / 0-70 virtual ms) + '
         'commands Tick, Advance, SetSource, CompleteRead, CompleteWrite, ApiWrite (bursts of up to 7), SetSequence, SetAttr, Reset, '
-        'CancelWaitingReader, Load '
+        'CancelWaitingReader, Disable/Enable (PATCH /ports/p enabled), SetExpr, Load '
         'on ports s (source), w (writable), e (expression over s, w), pl (persisted, loaded at run time); evaluations = '
         'schedules run on the real code, each giving one trace per port. non-trivial = some port has a driver call suspended '
         'while another step of that port happens, or its queue overflows; distinct = distinct (capacity, latencies, commands)'
@@ -615,15 +628,16 @@ def check(ctx, res):
     if corpus:
         batches(ctx, res, corpus, stats, seen, 'corpus')
     # exhaustive small scope on the one-port template (capacity 2)
-    small = enum_small(SMALL_C, 4, 2, 0) if ctx.tier == 'quick' else (
-        enum_small(SMALL_A, 8, 2, 0) + enum_small(SMALL_B, 6, 2, 100000) + enum_small(SMALL_C, 5, 2, 200000))
+    small = enum_small(SMALL_D, 4, 2, 0) if ctx.tier == 'quick' else (
+        enum_small(SMALL_A, 8, 2, 0) + enum_small(SMALL_B, 6, 2, 100000) + enum_small(SMALL_D, 5, 2, 200000))
     batches(ctx, res, small, stats, seen, 'small', chunk=4000)
     res['exhaustive'] = True
     res['extra']['exhaustive_scope'] = (
         'all command sequences of length <= %s over {ApiWrite w, Tick, CompleteRead w, CompleteWrite w%s} on one writable port '
         'with manual latencies and capacity 2: %d schedules' % (
-            ('4', ', Reset w, CancelWaitingReader w', len(small)) if ctx.tier == 'quick' else
-            ('8 (<= 6 with Reset w added, <= 5 with Reset w and CancelWaitingReader w added)', '', len(small))))
+            ('4', ', Reset w, CancelWaitingReader w, Disable w, Enable w', len(small)) if ctx.tier == 'quick' else
+            ('8 (<= 6 with Reset w added, <= 5 with Reset w, CancelWaitingReader w, Disable w, Enable w added)', '',
+             len(small))))
     n = ctx.n(400, 20000)
     scheds = [gen_schedule(ctx.rng, i) for i in range(n)]
     batches(ctx, res, scheds, stats, seen, 'rand')
